@@ -187,6 +187,6 @@ class ClohessyWiltshire(AnalyticalPropagator):
             accel_mat[3:, :] = self._mat3 @ accel_mat[3:, :] @ self._mat3.T
 
         new = evol_mat @ orb + accel_mat @ accel
-        new.date = orb.date + dt
+        new.date = date
 
         return new
